@@ -209,6 +209,7 @@ class MiniDB(QueryMixin, DMLMixin, ProgramMixin):
         self.fk_children: Dict[str, List[Tuple[str, List[str], List[str]]]] = {}
         self.cs_columns: frozenset = frozenset()
         self.strict_isolation = True
+        self._sig = None
         self.max_loop_iterations = 1000000
         self.statement_log: Optional[List[str]] = None
         self.tables = _TablesView(self)
@@ -227,6 +228,7 @@ class MiniDB(QueryMixin, DMLMixin, ProgramMixin):
     def add_table(self, schema_table):
         t = Table(schema_table)
         self._tables[t.name] = t
+        self._sig = None
         cs = set(self.cs_columns)
         for c in t.cols:
             if t.cs[c]:
@@ -260,7 +262,9 @@ class MiniDB(QueryMixin, DMLMixin, ProgramMixin):
         return Ctx(self, sess, frame, params)
 
     def _parse(self, sql: str, with_params: bool):
-        key = (sql, with_params, self.cs_columns)
+        if self._sig is None:
+            self._sig = hash(tuple(sorted((t.name, tuple(t.cols)) for t in self._tables.values())))
+        key = (sql, with_params, self.cs_columns, self._sig)
         st = _parse_cache.get(key)
         if st is None:
             st = parse(sql, with_params)
